@@ -3,6 +3,8 @@
 from __future__ import annotations
 
 import ast
+
+import numpy as np
 import json
 import os
 import re
@@ -498,6 +500,8 @@ def run(ctx):
     ctx.borrow("c01", {"R14": "R17", "R15": "R18", "R16": "R19"})
     ctx.rule("R20", "dictionary keys looked up by a writer are keys its reader stores", "`extra.get('occupancy')` on the writer side, `extra['occupancies']` on the reader side: the column is written with its default")
     check_dict_keys(ctx, "R20")
+    ctx.rule("R21", "FCHK gradient / Hessian / polarizability: packed by the writer, unpacked by the reader to the same array (evaluated)", "Fortran-order flattening or a strict lower triangle: derivatives attached to other atoms, diagonal force constants lost")
+    check_fchk_packed_arrays(ctx, "R21")
     ctx.rule("R14", "formats read by splitting at white space are written with a literal separator between neighbouring fields", "for a large system a counter fills its field and touches its neighbour: the written line has fewer tokens and cannot be read back")
     with open(os.path.join(VERIF_DIR, "spec", "layouts.json")) as fh:
         column_formats = set(json.load(fh)) - {"_comment"}
@@ -691,3 +695,77 @@ def check_dict_keys(ctx, rid):
                 else:
                     ctx.violate(rid, f"{short} writer looks up `{attr}[{key!r}]`, but the {short} reader stores only {sorted(rk[attr])} under `{attr}`: a value loaded from a {short} file is never written back (the writer silently uses its default)", g, node)
     ctx.floor(rid, n, 25, "dictionary keys looked up by writers")
+
+
+def check_fchk_packed_arrays(ctx, rid):
+    """FCHK gradient (flattened), Hessian and polarizability (lower triangle, row by row): the writer statement that
+    hands each array to `_dump_real_arrays` is evaluated on a numeric array whose entries all differ, and the reader's
+    unpacking (`reshape(-1, 3)`, `_triangle_to_dense`) must give the array back, symmetric ones in both triangles."""
+    from ..accessors import AccessorEval, Raised, Rec
+    from ..symarr import NotSymbolic
+
+    prog = ctx.prog
+    do = prog.func("iodata.formats.fchk.dump_one")
+    tri = prog.funcs.get("iodata.formats.fchk._triangle_to_dense")
+    dra = prog.funcs.get("iodata.formats.fchk._dump_real_arrays")
+    lo_funcs = [g for g in prog.package_funcs() if g.module is do.module]
+    if tri is None or dra is None:
+        raise AnalysisError("fchk: _triangle_to_dense / _dump_real_arrays not found")
+    iocls = prog.cls("iodata.iodata.IOData")
+    H = np.array([[11.0, 21.0, 31.0], [21.0, 22.0, 32.0], [31.0, 32.0, 33.0]])
+    G = np.array([[1.0, 2.0, 3.0], [4.0, 5.0, 6.0]])
+    P = np.array([[0.5, 1.5, 2.5], [1.5, 3.5, 4.5], [2.5, 4.5, 5.5]])
+    cases = [("Cartesian Gradient", dict(atgradient=G), G, "gradient"), ("Cartesian Force Constants", dict(athessian=H), H, "tri"), ("Polarizability", dict(extra={"polarizability_tensor": P}), P, "tri")]
+    for label, fields, want, kind in cases:
+        stmt = None
+        for st in do.body:
+            if any(isinstance(x, ast.Call) and x.args and isinstance(x.args[0], ast.Constant) and x.args[0].value == label for x in ast.walk(st)):
+                stmt = st
+        if stmt is None:
+            raise AnalysisError(f"fchk.dump_one: the statement that writes '{label}' was not found")
+        f0 = {name: None for name in iocls.fields}
+        f0.update(extra={}, moments={}, atcharges={})
+        f0.update(fields)
+        data = Rec(iocls, **f0)
+        got = {}
+
+        def capture(args, kw, got=got):
+            got[args[0]] = np.asarray(args[1], dtype=float)
+            return None
+
+        ev = AccessorEval(prog, iocls, limit=4000)
+        ev.module = do.module
+        ev.stubs = {dra.qualname: capture}
+        try:
+            ev._block([stmt], {do.posparams[0]: None, do.posparams[1]: data})
+            flat = got.get(label)
+            if flat is None or flat.ndim != 1:
+                ctx.violate(rid, f"FCHK '{label}': the writer does not hand a flat array to _dump_real_arrays", do, stmt, construct=f"fchk {label}: not flat")
+                continue
+            if kind == "tri":
+                back = np.asarray(AccessorEval(prog, None, limit=4000).run_free(tri, [flat], {}), dtype=float)
+            else:
+                rst = None
+                for g in lo_funcs:
+                    for x in g.own_nodes():
+                        if isinstance(x, ast.Assign) and isinstance(x.targets[0], ast.Subscript) and isinstance(x.targets[0].slice, ast.Constant) and x.targets[0].slice.value == "atgradient":
+                            rst = (g, x)
+                if rst is None:
+                    raise AnalysisError("fchk: the reader statement that stores atgradient was not found")
+                g, x = rst
+                src = next((n_.id for n_ in ast.walk(x.value) if isinstance(n_, ast.Name)), None)
+                local = {src: flat, x.targets[0].value.id: {}}
+                ev2 = AccessorEval(prog, None, limit=2000)
+                ev2.module = g.module
+                ev2._block([x], local)
+                back = np.asarray(local[x.targets[0].value.id]["atgradient"], dtype=float)
+        except Raised as exc:
+            ctx.violate(rid, f"FCHK '{label}': evaluation raises {exc.args[0]}", do, stmt, construct=f"fchk {label}: raises")
+            continue
+        except NotSymbolic as exc:
+            raise AnalysisError(f"fchk '{label}' writer / reader are outside the evaluation whitelist: {exc}") from exc
+        if back.shape == want.shape and np.abs(back - want).max() < 1e-12:
+            ctx.ok(rid, f"FCHK '{label}': what the writer packs, the reader unpacks to the same array" + (" (both triangles)" if kind == "tri" else ""), f"{do.module.relpath}:{stmt.lineno}")
+        else:
+            where = "shape " + str(back.shape) if back.shape != want.shape else "element " + str([int(v) + 1 for v in np.argwhere(np.abs(back - want) > 1e-12)[0]])
+            ctx.violate(rid, f"FCHK '{label}': written as {flat.tolist()}, read back with {where} wrong: values are attached to other matrix elements / atoms", do, stmt, construct=f"fchk {label}: round trip differs")
